@@ -134,7 +134,7 @@ RULES = ['assign_const_scalar', 'assign_const_elem', 'assign_string_elem', 'assi
          'return_wrong_type', 'undeclared_var', 'undeclared_func', 'redeclare_local', 'shadow_local', 'nested_array',
          'array_of_empty', 'index_empty_literal', 'bad_cast', 'bad_operand', 'bool_int_equality', 'spec_on_string',
          'const_vla', 'literal_ok_byte', 'byte_arith_ok', 'mutable_to_const_param_ok', 'string_to_const_bytes_ok',
-         'mixed_array_literal_ok', 'shadow_global_ok']
+         'mixed_array_literal_ok', 'shadow_global_ok', 'redeclare_over_global', 'shadow_over_global']
 
 
 def build_mutant(rule, site, draw, ck):
@@ -269,6 +269,21 @@ def build_mutant(rule, site, draw, ck):
         if not globs:
             return None
         return [Block([Decl(INT, False, pick(globs), I(1))])]
+    if rule in ('redeclare_over_global', 'shadow_over_global'):
+        # a local that legally shadows a global, then a second declaration of the same name (same scope / nested block /
+        # body of a for loop whose variable has that name): the global's existence must not excuse the second one
+        locs = {n for n, v in vis.items() if not v.is_global}
+        globs = [n for n, v in vis.items() if v.is_global and n not in locs]
+        if not globs:
+            return None
+        g = pick(globs)
+        t2 = draw(st.sampled_from([INT, BOOL, STRING]))
+        second = Decl(t2, False, g, {INT: I(2), BOOL: Lit('bool', True, None), STRING: Lit('string', b'oops', None)}[t2])
+        if rule == 'redeclare_over_global':
+            return [Block([Decl(INT, False, g, I(1)), second])]
+        if draw(st.booleans()):
+            return [Block([Decl(INT, False, g, I(1)), Block([second])])]
+        return [For(Decl(INT, False, g, I(0)), Bin('<', V(g), I(1)), AugAssign(V(g), '+', I(1)), Block([second]))]
     if rule == 'nested_array':
         return [Decl(arr(INT, True), True, fresh, ArrLit([ArrLit([I(1)]), ArrLit([I(2)])]))] if draw(st.booleans()) else \
             [ExprStmt(Call('write', [Len(ArrLit([ArrLit([I(1)])]))]))]
